@@ -442,7 +442,8 @@ def _month_end(y, m):
     return [y, m, calendar.monthrange(y, m)[1]]
 
 
-SIBLING_VARIANTS = ["loss_only", "placement", "attr_named", "none_vs_empty", "hash_collision"]
+SIBLING_VARIANTS = ["loss_only", "placement", "attr_named", "none_vs_empty", "hash_collision", "close_numeric",
+                    "big_int_ids"]
 
 
 def gen_triangle(rng, max_keys=136, n_slices=None, kind=None, size="small", restate_p=0.0, sibling=None, force=()):
@@ -487,7 +488,7 @@ def gen_triangle(rng, max_keys=136, n_slices=None, kind=None, size="small", rest
         m1 = metas[0]
         m2 = _copy.deepcopy(m1)
         variant = sibling or rng.choice(["loss_only", "loss_only", "placement", "attr_named", "none_vs_empty",
-                                          "hash_collision"])
+                                          "hash_collision", "close_numeric", "big_int_ids"])
         if variant == "loss_only":
             strs = [it for it in m2["loss_details"] if it[1][0] == "str"]
             if strs and rng.random() < 0.5:
@@ -517,6 +518,26 @@ def gen_triangle(rng, max_keys=136, n_slices=None, kind=None, size="small", rest
                 m1[dn] = [it for it in m1[dn] if it[0] != "layer_h"] + [["layer_h", va]]
                 m2 = _copy.deepcopy(m1)
                 m2[dn][-1] = ["layer_h", vb]
+        elif variant in ("close_numeric", "big_int_ids"):
+            # numeric metadata that differ by 1 at a magnitude where a relative tolerance (1e-9) or a detour
+            # through float64 (ints above 2**53) cannot tell them apart
+            if variant == "close_numeric":
+                va, vb = rng.choice([(["int", 3_000_000_000], ["int", 3_000_000_001]),
+                                     (["int", 10**12], ["int", 10**12 + 1]),
+                                     (["float", struct.pack("<d", 1e12).hex()], ["float", struct.pack("<d", 1e12 + 1).hex()])])
+                dn = rng.choice(["details", "loss_details", "limit"])
+            else:
+                base = rng.choice([2**53, 123456789012345678, 2**62])      # float(base) == float(base + 1)
+                va, vb = ["int", base], ["int", base + 1]
+                dn = rng.choice(["details", "loss_details"])
+            if dn == "limit":
+                m1["limit"] = struct.pack("<d", 1e10).hex()
+                m2 = _copy.deepcopy(m1)
+                m2["limit"] = struct.pack("<d", 1e10 + 1).hex()
+            else:
+                m1[dn] = [it for it in m1[dn] if it[0] != "policy_id"] + [["policy_id", va]]
+                m2 = _copy.deepcopy(m1)
+                m2[dn][-1] = ["policy_id", vb]
         elif variant == "none_vs_empty":
             a = rng.choice(META_STR_ATTRS)      # None vs "" in one attribute, nothing else differs
             m1[a] = None
@@ -1639,3 +1660,205 @@ def coqc_many_retry(ctx, files, jobs=16, timeout=1500):
             ctx.log(f"coqc on {getattr(f, 'name', f)} ended with status {rc} and no Coq error: retrying once")
             res[f] = ctx.coqc(f, timeout=timeout)
     return res
+
+
+# ====================================================================== LARGE stream (family Q)
+# Big cases judged by the Python-side oracles only (independent encoder/decoder, strict round trip,
+# permutation, prefixes): the theorems are size-independent, it is the correspondence that samples,
+# and Coq literals of 10^5 elements are not affordable.  Cases are rebuilt from their parameters.
+def large_params(quick=True, seed=1):
+    ps = [dict(large="scalar", seed=seed, slices=6, starts=3, evals=70, fields=5),            # 2520 cells, ~200 KB
+          dict(large="arrays", seed=seed, cells=90, samples=100, big=[(300, 250), (70000,)], mid=[4096, 5000]),
+          dict(large="manymeta", seed=seed, metas=1100)]
+    if not quick:
+        ps += [dict(large="scalar", seed=seed + 1, slices=12, starts=2, evals=128, fields=3),  # 256-cell slices
+               dict(large="scalar", seed=seed + 2, slices=5, starts=4, evals=80, fields=6),    # 3200 cells
+               dict(large="arrays", seed=seed + 1, cells=300, samples=100, big=[(1000, 100), (100000,)], mid=[4999]),
+               dict(large="manymeta", seed=seed + 1, metas=4200)]
+    return ps
+
+
+def build_large(p):
+    """Cell objects of one large case (deterministic in p)."""
+    import random as _r
+
+    from bermuda import Cell, CumulativeCell, Metadata
+
+    rng = _r.Random(p["seed"] * 7 + 1)
+    cells = []
+    if p["large"] == "scalar":
+        names = [f"f{j}" for j in range(p["fields"])]
+        for si in range(p["slices"]):
+            def new_meta():   # value-equal but DISTINCT instances inside one slice
+                return Metadata(risk_basis="Accident", country=f"C{si:02d}", per_occurrence_limit=1e10 + si,
+                                details={"policy_id": 2**53 + 1 + si, "line": "motor"},
+                                loss_details={"peril": "wind" if si % 2 else "fire"})
+            for st in range(p["starts"]):
+                y = 2000 + st
+                for pe, off in ((datetime.date(y, 3, 31), 12), (datetime.date(y, 12, 31), 0)):   # nested periods
+                    for e in range(p["evals"]):
+                        ey, em = _add_months(y, 12, off + e)
+                        ev = datetime.date(*_month_end(ey, em))
+                        vals = {n: (rng.choice([2**53 + 1, -(2**62), 7]) + e if j % 2 == 0 else rng.random() * 1e6)
+                                for j, n in enumerate(names)}
+                        cells.append(CumulativeCell(datetime.date(y, 1, 1), pe, ev, vals, new_meta()))
+    elif p["large"] == "arrays":
+        m = Metadata(details={"k": "v"})
+        for i in range(p["cells"]):
+            y = 1990 + i // 12
+            mo = i % 12 + 1
+            vals = {"s": np.arange(i, i + p["samples"], dtype="float64") / 7.0,
+                    "n": (np.arange(p["samples"], dtype="int64") * (2**40) + i)}
+            cells.append(Cell(datetime.date(y, mo, 1), datetime.date(*_month_end(y, mo)),
+                              datetime.date(*_month_end(y, mo)), vals, m))
+        big = {}
+        for j, shp in enumerate(p["big"]):
+            n = int(np.prod(shp))
+            if len(shp) == 2:
+                a = np.asfortranarray(np.arange(n, dtype="int64").reshape(shp) * 3 + 2**53)     # Fortran order
+            else:
+                a = (np.arange(n, dtype="float64") * 0.5)[::-1]                                   # reversed view
+            big[f"big{j}"] = a
+        for j, n in enumerate(p["mid"]):
+            big[f"mid{j}"] = np.arange(2 * n, dtype="int64")[::2] if j % 2 == 0 else np.linspace(0, 1, n)
+        cells.append(Cell(datetime.date(2030, 1, 1), datetime.date(2030, 12, 31), datetime.date(2030, 12, 31), big, m))
+    else:  # manymeta: one cell per distinct Metadata
+        for i in range(p["metas"]):
+            md = Metadata(country=f"K{i % 97:02d}", currency=f"U{i // 97:03d}", per_occurrence_limit=float(i),
+                          details={"id": 2**53 + i}, loss_details={"tag": str(i)} if i % 3 else {})
+            y = 2000 + i % 20
+            cells.append(Cell(datetime.date(y, 1, 1), datetime.date(y, 12, 31), datetime.date(y, 12, 31),
+                              {"paid": i, "x": float(i) / 3}, md))
+    return cells
+
+
+def ref_cell_offsets(buf):
+    """Byte offset at which each record of a v1 file ends (independent cursor walk)."""
+    c = _Cur(bytes(buf))
+    c.need(5)
+    pool = [_rd_text(c) for _ in range(c.uint(2))]
+    ends = []
+    while not c.at_end():
+        tag = c.uint(1)
+        if tag == 0x10:
+            for _ in range(5):
+                _rd_text(c)
+            c.need(8)
+            _rd_mapping(c, pool)
+            _rd_mapping(c, pool)
+            continue
+        for _ in range(3):
+            c.need(4)
+        _rd_mapping(c, pool)
+        if tag == 0x13:
+            c.need(4)
+        ends.append(c.i)
+    return ends
+
+
+def large_oracle(p, scratch, mode, early=None):
+    """mode 'c05': strict round trip (both flavours) + independent encoder; 'c06': independent codec both
+    ways + permutation of the supplied cells; 'c19': prefixes at record boundaries and inside records.
+    Returns None or (what, detail)."""
+    import random as _r
+
+    from bermuda import Triangle
+
+    rng = _r.Random(p["seed"])
+    det = {"large_params": p, "mode": mode}
+    cells = build_large(p)
+    with warnings.catch_warnings():
+        warnings.simplefilter("ignore")
+        tri = Triangle(cells)
+    wt = canon_triangle(tri)
+    w = safe_write(tri, scratch)
+    if w[0] != "ok":
+        return (f"to_binary raised {w[1]} on a large valid triangle ({len(cells)} cells)", det)
+    b = w[1]
+    ref = ref_encode(wt)
+    if b != ref:
+        k = next((i for i, (x, y) in enumerate(zip(ref, b)) if x != y), min(len(ref), len(b)))
+        return (f"large triangle ({len(cells)} cells, {len(b)} bytes): file differs from the documented layout at "
+                f"offset {k} (lengths {len(b)}/{len(ref)})", det)
+    if mode in ("c05", "c06"):
+        r = impl_read(b, scratch)
+        if r[0] != "ok" or not wt_equal(r[1], wt):
+            return (f"large triangle ({len(cells)} cells): round trip " +
+                    (f"raised {r[1]}" if r[0] != "ok" else "changed the triangle: " + first_diff(r[1], wt)), det)
+    if mode == "c05":
+        w2 = safe_write(tri, scratch, compress=True)
+        r = impl_read(w2[1], scratch, compress=True) if w2[0] == "ok" else ("err", w2[1])
+        if r[0] != "ok" or not wt_equal(r[1], wt):
+            return (f"large triangle ({len(cells)} cells): compressed round trip failed", det)
+    if mode == "c06":
+        try:
+            if not wt_equal(ref_decode(b), wt, ordered=True):
+                return ("large triangle: the independent decoder recovers a different triangle", det)
+        except Exception as ex:  # noqa: BLE001
+            return (f"large triangle: the independent decoder fails: {ex}", det)
+        perm = cells[:]
+        rng.shuffle(perm)
+        with warnings.catch_warnings():
+            warnings.simplefilter("ignore")
+            w3 = safe_write(Triangle(perm), scratch)
+        if w3[0] != "ok" or w3[1] != b:
+            return (f"large triangle ({len(cells)} cells): different bytes for a permutation of the same cells", det)
+    if mode == "c19":
+        ends = ref_cell_offsets(b)
+        picks = sorted({ends[i] for i in (0, 1, 2, 99, 255, 256, 1023, 1024, 2046, 2047, 2048, len(ends) - 2)
+                        if 0 <= i < len(ends) - 1}
+                       | {rng.choice(ends[:-1]) for _ in range(6)} | {rng.randrange(len(b)) for _ in range(8)})
+        canon_cache = [norm_cell(c, False) for c in wt]
+        for n in picks:
+            r = impl_read(b[:n], scratch)
+            if r[0] == "err":
+                continue
+            got = r[1]
+            if len(got) > len(wt) or any(norm_cell(g, False) != canon_cache[i] for i, g in enumerate(got)):
+                return (f"large file ({len(cells)} cells, {len(b)} bytes) cut at byte {n}: the {len(got)} cell(s) returned "
+                        "are not the leading cells of the original, in order", dict(det, cut=n))
+        w2 = safe_write(tri, scratch, compress=True)
+        if w2[0] == "ok":
+            for n in sorted({rng.randrange(len(w2[1])) for _ in range(5)} | {len(w2[1]) - 1, len(w2[1]) - 9}):
+                r = impl_read(w2[1][:n], scratch, compress=True)
+                if r[0] == "ok":
+                    return (f"large compressed file cut at byte {n} of {len(w2[1])} was read ({len(r[1])} cells)",
+                            dict(det, cut=n, flavour="tribc"))
+    if early is not None:
+        # process-wide state: an early small case must still be written exactly as before the large work
+        e_wt, e_bytes = early
+        w4 = safe_write(mk_triangle(e_wt), scratch)
+        if w4[0] != "ok" or w4[1] != e_bytes:
+            return ("after the large work an early small triangle is no longer written as before", dict(det, early=e_wt))
+        r = impl_read(e_bytes, scratch)
+        if r[0] != "ok" or not wt_equal(r[1], e_wt):
+            return ("after the large work an early small file is no longer read back as before", dict(det, early=e_wt))
+    return None
+
+
+def run_large_stream(ctx, scratch, mode, early=None):
+    import time as _t
+
+    t0 = _t.time()
+    n_bad = 0
+    for p in large_params(ctx.quick, ctx.seed):
+        bad = large_oracle(p, scratch, mode, early=early)
+        ctx.hist("large:" + p["large"])
+        ctx.count(evaluations=10, traces=1)
+        ctx.nontriv(("large", repr(p)))
+        if bad is not None:
+            n_bad += 1
+            if n_bad <= 2:
+                ctx.violation("impl-violation", bad[0], bad[1], found_input=True)
+    ctx.notes.append(f"large stream ({len(large_params(ctx.quick, ctx.seed))} cases: up to 2520/3200 cells, 1100/4200 distinct "
+                     "Metadata, 10^5-item arrays) is judged by the Python-side oracles only (independent codec, strict round "
+                     f"trip, permutation, prefixes); no Coq literals for these; {_t.time()-t0:.1f}s")
+
+
+def replay_large(data, scratch):
+    bad = large_oracle(data["large_params"], scratch, data.get("mode", "c05"))
+    if bad is None:
+        print("large case: all oracles pass: property holds")
+        return 0
+    print("PROPERTY FAILS:", bad[0])
+    return 1
